@@ -145,6 +145,14 @@ def run(ctx):
     # ------------------------------------------------------------------ R05.15 (generic, scoped to this property's anchors)
     sm.rule_named_plumbing(ctx, mir, "C05", "R05.15", floor=49)
 
+    # ------------------------------------------------------------------ R05.16
+    rule_dispatch_unconditional(ctx, mir)
+
+    # ------------------------------------------------------------------ R05.17 (= R03.11)
+    # which markup is CDATA text and which is an element depends on the namespace primitives
+    from .c03 import rule_ns_primitives
+    rule_ns_primitives(ctx, mir, rid="R05.17")
+
     ctx.not_decided += ["exactly-once delivery over all open/close sequences (needs the selector VM's run-time behaviour)", "text flushed before a tag is reported is rule R02.4 (C02)"]
     return ("Bookkeeping clauses of scoped dispatch read from the expanded syntax tree and MIR: balance and independence of handler activation, "
             "the kind/flag/token table across four functions, registration and iteration order, one-shot consumption of element/end-tag/end handlers.")
@@ -281,3 +289,24 @@ def rule_activation_balance(ctx, idx, mir, rid="R05.1"):
         r.inst("HandlerVec::" + nm, sample={"updates": ops})
         if ops != ["item.user_count", "self.user_count"]:
             r.violate("HandlerVec::" + nm, f"HandlerVec::{nm} updates {ops}; the per-item count and the total must move together (has_active decides which tokens are captured)", "src/rewriter/handlers_dispatcher.rs")
+
+
+def rule_dispatch_unconditional(ctx, mir, rid="R05.16"):
+    from ..mirlib import guarding_branches as _gb
+    r = ctx.rule(rid, "handlers see every captured token, also inside removed content: in token_produced and text_token_produced the call of TransformController::handle_token is not control-dependent on anything (in particular not on emission_enabled, which only gates serialisation)", "E-MIR control dependence", floor=2)
+    n = 0
+    for nm in ("DispatcherDelegate::token_produced", "DispatcherDelegate::text_token_produced"):
+        fs = [f for f in mir.fns if f.key.split("[")[0] == nm and not mir.is_test_fn(f)]
+        if len(fs) != 1:
+            raise EngineError(f"{rid}: anchor {nm}")
+        f = fs[0]
+        calls = [bi for bi, t in f.calls(r"handle_token$")]
+        r.inst(nm + "|handle_token", sample={"calls": len(calls)})
+        if len(calls) != 1:
+            r.violate(nm + "|handle_token", f"{nm} calls handle_token {len(calls)} times, expected once", f.loc())
+            continue
+        n += 1
+        gs = [f.deep(f.blocks[sb]["term"]["d"]) for sb in _gb(f, calls[0])]
+        if gs:
+            r.violate(nm + "|handle_token", f"{nm} dispatches the token to the handlers only when `{gs[0][:100]}`: handlers scoped to removed content (or to whatever the condition excludes) are silently skipped", f.loc())
+
